@@ -46,6 +46,10 @@ def seqcst_fact(ctx, job):
 def make_jobs(ctx):
     jobs = []
     jobs += rmem.jobs(ctx, KINDS, "R", ub_checks=True)
+    # the configuration without hardware atomics on byte-swapped cells (big-endian hosts): EVERY read-modify-write of a memory goes through the one
+    # memory mutex (monitor model: havoc at acquisition) - one lock-free flavour among them would break atomicity of all the others
+    jobs += rmem.jobs(ctx, ["rmw", "cmpxchg"], "BEm.mtx", variant="noswapbuiltin", big_endian=True,
+                      defines=["WASM_ENDIAN=WASM_BIG_ENDIAN", "WASM_THREADS_PTHREADS"], be_mutex=True)
     j = Job("S.seqcst", src=None, solver="static", funcs=["w2c2_base.h:atomic_* macro table"],
             info=dict(layer="static", static_cmd="gcc -E -P w2c2_base.h | per-function body inspection"))
     j.static_fn = seqcst_fact
